@@ -932,6 +932,10 @@ func (fv *FV) execInstr(fr *Frame, st *State, in ssa.Instruction) {
 		fr.regs[x] = fv.typeAssert(fr, st, x)
 	case *ssa.MakeSlice:
 		fr.regs[x] = fv.makeSlice(fr, st, x)
+	case *ssa.Range:
+		// only the creation of the iterator is modelled (an opaque value); a map/string range loop itself needs
+		// ssa.Next, which is not supported: contracts end such paths with `stop at loop N`
+		fr.regs[x] = Scalar{fv.fresh("rangeiter", RefSort)}
 	case *ssa.MakeClosure:
 		var bs []Value
 		for _, b := range x.Bindings {
